@@ -1045,8 +1045,8 @@ class Interp:
                 r = ba.add(bb)
                 if r is not None:
                     return r
-            if isinstance(op, ast.Sub) and bb.is_const():
-                r = ba.add(Bits.const(-bb.value()))
+            if isinstance(op, ast.Sub):
+                r = ba.sub(bb)
                 if r is not None:
                     return r
             if isinstance(op, ast.Mult):
@@ -1916,10 +1916,32 @@ def _b_getattr(it, args, kwargs, e, func):
             f = obj.cls.lookup(name) if obj.cls else None
             if f is not None:
                 return Bound(obj, f)
-            if len(args) == 3:
+            if obj.cls is not None:
+                for c in obj.cls.mro():
+                    if name in c.attrs:
+                        v = it.class_attr_value(c, name)
+                        if v is not NotImplemented:
+                            return v
+                        break
+            if len(args) == 3 and obj.cls is not None:
                 return args[2]
         return Sym("attr", obj, name)
     return Sym("getattr", *args)
+
+
+def _b_setattr(it, args, kwargs, e, func):
+    if len(args) == 3 and isinstance(args[1], str) and isinstance(args[0], Obj):
+        args[0].attrs[args[1]] = args[2]
+        return None
+    raise AnalysisError("%s: setattr(%s) with a target or name the interpreter cannot follow" % (func.loc(e) if func is not None else "?", ", ".join(show(a)[:30] for a in args)))
+
+
+def _b_hasattr(it, args, kwargs, e, func):
+    if len(args) == 2 and isinstance(args[1], str) and isinstance(args[0], Obj) and args[0].cls is not None:
+        obj, name = args
+        if name in obj.attrs or obj.cls.lookup(name) is not None or any(name in c.attrs for c in obj.cls.mro()):
+            return True
+    return Sym("hasattr", *args)
 
 
 def _b_reversed(it, args, kwargs, e, func):
@@ -2007,7 +2029,7 @@ def _b_chr(it, args, kwargs, e, func):
     return Sym("chr", v)
 
 
-_BUILTINS = {"len": _b_len, "range": _b_range, "int": _b_int, "isinstance": _b_isinstance, "ord": _b_ord, "chr": _b_chr, "enumerate": _b_enumerate, "zip": _b_zip, "getattr": _b_getattr, "reversed": _b_reversed, "divmod": _b_divmod}
+_BUILTINS = {"len": _b_len, "range": _b_range, "int": _b_int, "isinstance": _b_isinstance, "ord": _b_ord, "chr": _b_chr, "enumerate": _b_enumerate, "zip": _b_zip, "getattr": _b_getattr, "setattr": _b_setattr, "hasattr": _b_hasattr, "reversed": _b_reversed, "divmod": _b_divmod}
 for _n in ("abs", "min", "max", "str", "float", "bool", "hex", "sorted", "list", "tuple", "bytes", "bytearray", "repr", "sum", "round", "pow"):
     _BUILTINS[_n] = _b_simple(_n)
 
